@@ -12,20 +12,28 @@ TARGETS = ["drv_exec"]
 DRIVER_ROOTS = ["Driver/Exec.lean"]
 GENERATED = []
 RULE = ("case = (acyclic pre/post graph over 2-6 tasks with parameters and defaults, plain references and call(...) "
-        "with baked positional/keyword arguments, optional default task, optional pair of factory-made twin tasks in two "
-        "sub-collections; request list of length 0-3 in one of four forms: names, (name, kwargs) pairs, contexts from the "
-        "real Parser, argv through the real Program; dedupe on/off via config, --no-dedupe or the built-in default).  Every "
-        "case runs the real Executor.execute; a case is non-trivial when the expansion has at least two invocations; "
-        "distinct = distinct canonical cases.  Exhaustive part: every graph over <=3 parameterless tasks with <=2 pre+post "
-        "edges per task x every request list of length <=3 x dedupe on/off; thorough adds every such graph over 4 tasks "
-        "(3468 graphs) x every request list of length <=2 with dedupe on, and a random 12% of the length-3 requests / 25% "
-        "of the dedupe-off runs")
+        "with baked positional/keyword arguments; tasks may have aliases, underscore names, autoprint, live in sub-collections "
+        "(dotted names, sub-collection default shortcut), and several Task objects may wrap ONE body function or the products "
+        "of one factory - under the same name in another sub-collection or under another name - each with its own pre/post "
+        "lists and options; optional default task; request list of length 0-3, every item under one of the names the task "
+        "answers to, in one of four forms: names, (name, kwargs) pairs, contexts from the real Parser, argv through the real "
+        "Program; dedupe on/off via config, --no-dedupe or the built-in default; in a quarter of the direct forms the SAME "
+        "Executor object runs a second execute() - a new session - after pre/post lists were edited).  Every session runs the "
+        "real Executor.execute and is judged on its own; non-trivial = at least two invocations; distinct = distinct canonical "
+        "cases.  Exhaustive part: every graph over <=3 parameterless tasks with <=2 pre+post edges per task x every request "
+        "list of length <=3 x dedupe on/off, and every pair of pre/post lists (<=1 edge each, thorough <=2) for one function "
+        "wrapped by two same-named Task objects x 6 requests x dedupe on/off; thorough adds every 4-task graph (3468) x every "
+        "request list of length <=2 with dedupe on, a random 12% of the length-3 requests / 25% of the dedupe-off runs")
 TRUSTED = ["Lean 4.33 kernel", "axioms propext/Classical.choice/Quot.sound only",
            "harness/props/c04.py correspondence + canonicalisation (Task subclass that records the literal call arguments)",
            "CPython argument binding, dict/tuple equality (modelled: kwEq, bind)",
            "model Invoke/Model/Executor.lean hand-written, tied by correspondence on every run"]
 ASSUMPTIONS = ["task graphs are acyclic (a cyclic pre/post graph makes expand_calls recurse forever; outside the property)",
                "argument values are ints and strings (Python's 1 == True == 1.0 coincidences are not modelled)",
+               "one execute() call is one session: nothing carries over to a later execute() on the same Executor; each "
+               "occurrence of a task is surrounded by the pre/post lists of THAT Task object as they are when execute() starts",
+               "Task objects that are one dict key (same name, same body function) share one entry of the returned mapping; the "
+               "oracle accepts any of their return values there",
                "collection lookup of the requested names and CLI parsing are C10's / C01's subject: the model's request is "
                "the (task, kwargs) list that Executor.normalize reads",
                "effective_args_dedupe_partial: proved only for call lists in which calls of one task spell out the same "
@@ -71,60 +79,83 @@ def make_body(rt, name, params):
 def rt_enter(rt, tid, bound):
     lit = rt.literal
     rt.literal = None
-    rt.log.append((tid, bound, lit[0] if lit else None, lit[1] if lit else None))
+    if lit is not None and lit[0] is not None:
+        tid = lit[0]  # the Task OBJECT that was called (several objects may share one body function)
+    rt.log.append((tid, bound, lit[1] if lit else None, lit[2] if lit else None))
     return ("ret", len(rt.log) - 1)
 
 
+def mk_calls(tasks, lst):
+    from invoke import Call
+    out = []
+    for j, pos, kw in lst:
+        if not pos and not kw:
+            out.append(tasks[j])
+        else:
+            out.append(Call(tasks[j], args=tuple(v[1] for v in pos), kwargs={k: v[1] for k, v in kw}))
+    return out
+
+
 def build(case):
-    """-> (runtime, tasks(list of Task), root Collection, cli names)"""
-    from invoke import Collection, Task, Call
+    """-> (runtime, tasks(list of Task), root Collection, primary cli names)"""
+    from invoke import Collection, Task
 
     rt = Runtime()
 
     class LTask(Task):
         def __call__(self, *args, **kwargs):
-            rt.literal = (list(args[1:]), dict(kwargs))
+            rt.literal = (getattr(self, "_vidx", None), list(args[1:]), dict(kwargs))
             return super().__call__(*args, **kwargs)
 
-    def val(v):
-        return v[1]
-
-    tasks, makers = [], {}
+    tasks, makers, bodies = [], {}, {}
     for i, t in enumerate(case["tasks"]):
-        src = t.get("code_of")
-        if src is None:
+        if t.get("body_of") is not None:
+            body = bodies[t["body_of"]]  # the very same function object, wrapped once more
+        elif t.get("code_of") is not None:
+            body = makers[t["code_of"]](rt, i)  # a factory product: same code object, different closure
+            makers[i] = makers[t["code_of"]]
+        else:
             makers[i] = make_body(rt, t["name"], t["params"])
             body = makers[i](rt, i)
-        else:
-            makers[i] = makers[src]
-            body = makers[src](rt, i)
-
-        def mk(lst):
-            out = []
-            for j, pos, kw in lst:
-                if not pos and not kw:
-                    out.append(tasks[j])
-                else:
-                    out.append(Call(tasks[j], args=tuple(val(v) for v in pos), kwargs={k: val(v) for k, v in kw}))
-            return out
-
-        tasks.append(LTask(body, name=t["name"], pre=mk(t["pre"]), post=mk(t["post"])))
+        bodies[i] = body
+        obj = LTask(body, name=t["name"], pre=mk_calls(tasks, t["pre"]), post=mk_calls(tasks, t["post"]),
+                    autoprint=bool(t.get("autoprint")), aliases=tuple(t.get("aliases") or ()))
+        obj._vidx = i
+        tasks.append(obj)
     root = Collection()
     subs = {}
     names = []
     for i, t in enumerate(case["tasks"]):
-        dflt = case.get("default") == i
         if t.get("ns"):
             if t["ns"] not in subs:
                 subs[t["ns"]] = Collection(t["ns"])
-            subs[t["ns"]].add_task(tasks[i])
-            names.append(t["ns"] + "." + t["name"])
+            subs[t["ns"]].add_task(tasks[i], default=bool(t.get("sub_default")))
+            names.append((t["ns"] + "." + t["name"]).replace("_", "-"))
         else:
-            root.add_task(tasks[i], default=dflt)
-            names.append(t["name"])
-    for s in subs.values():
-        root.add_collection(s)
+            root.add_task(tasks[i], default=(case.get("default") == i))
+            names.append(t["name"].replace("_", "-"))
+    for sc in subs.values():
+        root.add_collection(sc)
     return rt, tasks, root, names
+
+
+def spellings(case, idx, cli):
+    """the names under which task idx can be requested in one session"""
+    t = case["tasks"][idx]
+    ns = t.get("ns")
+    local = [t["name"].replace("_", "-")] + [a.replace("_", "-") for a in (t.get("aliases") or [])]
+    if not cli:
+        local += [x for x in [t["name"]] + list(t.get("aliases") or []) if "_" in x]
+    out = [(ns.replace("_", "-") + "." + x) if ns else x for x in local]
+    if ns and not cli and "_" in ns:
+        out.append(ns + "." + t["name"])
+    if ns and t.get("sub_default"):
+        out.append(ns.replace("_", "-"))
+    return out
+
+
+def req_name(item, names):
+    return item[2] if len(item) > 2 and item[2] else names[item[0]]
 
 
 def canon_val(v):
@@ -139,8 +170,9 @@ def canon_val(v):
 
 def argv_for(case, names):
     argv = []
-    for idx, kw in case["req"]:
-        argv.append(names[idx])
+    for item in case["req"]:
+        idx, kw = item[0], item[1]
+        argv.append(req_name(item, names))
         params = dict((p[0], p[1]) for p in case["tasks"][idx]["params"])
         kwd = dict((k, v) for k, v in kw)
         # required parameters positionally, in signature order, then flags
@@ -153,20 +185,59 @@ def argv_for(case, names):
     return argv
 
 
+def session_case(case, k):
+    """the case as it stands in session k (0 = first execute(); 1 = after the edits, second execute())"""
+    if k == 0 or not case.get("second"):
+        return case
+    c = dict(case)
+    c["tasks"] = [dict(t) for t in case["tasks"]]
+    for i, slot, lst in case["second"].get("edits", []):
+        c["tasks"][i][slot] = lst
+    c["req"] = case["second"]["req"]
+    return c
+
+
+def key_classes(case):
+    """dict-key identity of a Task: same name and the very same body function object"""
+    out = []
+    for i, t in enumerate(case["tasks"]):
+        j = t.get("body_of")
+        out.append(out[j] if j is not None and case["tasks"][j]["name"] == t["name"] else i)
+    return out
+
+
 def run_impl(case):
-    """Runs the real code.  -> dict(log=[(tid,bound,pos,kw)], results={tid: seq}|None, reqkw=[(idx, kw)], error=None|str)"""
+    """Runs the real code.  -> list (one per execute() call) of
+    dict(log=[(task idx, bound, pos, kw)], results={key class: value}|None, reqkw=[(idx, kw)], error=None|str)"""
     from invoke import Executor, Config
     from invoke.parser import Parser, ParserContext
 
     rt, tasks, root, names = build(case)
-    ident = dict((id(t.body), i) for i, t in enumerate(tasks))  # bodies survive the deep copies Collection makes
+    keyc = key_classes(case)
     form = case["form"]
     dd, via = case["dedupe"], case.get("dedupe_via", "config")
-    res, reqkw, err = None, None, None
+    sessions = []
     sink = io.StringIO()
-    try:
-        with contextlib.redirect_stdout(sink), contextlib.redirect_stderr(sink):
-            if form == "program":
+
+    def finish(res, reqkw, err, start):
+        results = None
+        if res is not None:
+            results = {}
+            for t, v in res.items():
+                vi = getattr(t, "_vidx", None)
+                results[keyc[vi] if vi is not None and vi < len(keyc) else "?%s" % getattr(t, "name", t)] = v
+        sessions.append({"log": list(rt.log[start:]), "results": results, "reqkw": reqkw, "error": err, "base": start})
+
+    def by_position(cs, contexts):
+        items = cs["req"]
+        if len(items) != len(contexts):
+            return None
+        return [(items[n][0], c.as_kwargs) for n, c in enumerate(contexts)]
+
+    if form == "program":
+        res, reqkw, err = None, None, None
+        try:
+            with contextlib.redirect_stdout(sink), contextlib.redirect_stderr(sink):
                 from invoke import Program
 
                 box = {}
@@ -197,33 +268,43 @@ def run_impl(case):
                     Program(loader_class=MemLoader, executor_class=CapExec).run(
                         ["inv", "--no-dedupe"] + argv_for(case, names), exit=False)
                 res = box.get("res")
-                reqkw = [(names.index(c.name), c.as_kwargs) for c in box.get("req", ())]
-            else:
-                if via == "default":
-                    cfg = Config(lazy=True)
-                elif via == "missing":
-                    cfg = Config(defaults={}, lazy=True)  # no `tasks` tree at all: execute() falls back to dedupe on
-                else:
-                    cfg = Config(overrides={"tasks": {"dedupe": dd}}, lazy=True)
+                reqkw = by_position(case, box.get("req", ()))
+        except Exception as e:  # noqa
+            err = "%s: %s" % (type(e).__name__, e)
+        finish(res, reqkw, err, 0)
+        return sessions
+
+    if via == "default":
+        cfg = Config(lazy=True)
+    elif via == "missing":
+        cfg = Config(defaults={}, lazy=True)  # no `tasks` tree at all: execute() falls back to dedupe on
+    else:
+        cfg = Config(overrides={"tasks": {"dedupe": dd}}, lazy=True)
+    ex = Executor(root, cfg)
+    for k in range(2 if case.get("second") else 1):
+        cs = session_case(case, k)
+        start = len(rt.log)
+        res, reqkw, err = None, None, None
+        try:
+            if k == 1:
+                for i, slot, lst in case["second"].get("edits", []):
+                    setattr(tasks[i], slot, mk_calls(tasks, lst))
+            with contextlib.redirect_stdout(sink), contextlib.redirect_stderr(sink):
                 if form == "names":
-                    req = [names[i] for i, _ in case["req"]]
-                    reqkw = [(i, {}) for i, _ in case["req"]]
+                    req = [req_name(it, names) for it in cs["req"]]
+                    reqkw = [(it[0], {}) for it in cs["req"]]
                 elif form == "pairs":
-                    req = [(names[i], dict((k, v[1]) for k, v in kw)) for i, kw in case["req"]]
-                    reqkw = [(i, dict((k, v[1]) for k, v in kw)) for i, kw in case["req"]]
+                    req = [(req_name(it, names), dict((kk, v[1]) for kk, v in it[1])) for it in cs["req"]]
+                    reqkw = [(it[0], dict((kk, v[1]) for kk, v in it[1])) for it in cs["req"]]
                 else:
-                    pr = Parser(root.to_contexts(), initial=ParserContext()).parse_argv(argv_for(case, names))
+                    pr = Parser(root.to_contexts(), initial=ParserContext()).parse_argv(argv_for(cs, names))
                     req = list(pr[1:])
-                    reqkw = [(names.index(c.name), c.as_kwargs) for c in req]
-                res = Executor(root, cfg).execute(*req)
-    except Exception as e:  # noqa
-        err = "%s: %s" % (type(e).__name__, e)
-    results = None
-    if res is not None:
-        results = {}
-        for t, v in res.items():
-            results[ident.get(id(getattr(t, "body", None)), "?%s" % getattr(t, "name", t))] = v
-    return {"log": list(rt.log), "results": results, "reqkw": reqkw, "error": err}
+                    reqkw = by_position(cs, req)
+                res = ex.execute(*req)
+        except Exception as e:  # noqa
+            err = "%s: %s" % (type(e).__name__, e)
+        finish(res, reqkw, err, start)
+    return sessions
 
 
 # ------------------------------------------------------------------ model side
@@ -245,17 +326,21 @@ def enc_pos(pos):
 
 
 def classes(case):
-    """equality class of each task under Task.__eq__ (name and code object)"""
-    return [t["code_of"] if t.get("code_of") is not None else i for i, t in enumerate(case["tasks"])]
+    """equality class of each task under Task.__eq__ (same name, and the same body object or the same code object)"""
+    out = []
+    for i, t in enumerate(case["tasks"]):
+        j = t.get("code_of") if t.get("code_of") is not None else t.get("body_of")
+        out.append(out[j] if j is not None and case["tasks"][j]["name"] == t["name"] else i)
+    return out
 
 
 def model_line(case, reqkw):
-    cls = classes(case)
+    cls, keyc = classes(case), key_classes(case)
     ts = []
     for i, t in enumerate(case["tasks"]):
         def calls(lst):
             return ",".join("%d/%s/%s" % (j, enc_pos(pos), enc_kw(kw)) for j, pos, kw in lst)
-        ts.append("%d:%s:%s" % (cls[i], calls(t["pre"]), calls(t["post"])))
+        ts.append("%d:%d:%s:%s" % (cls[i], keyc[i], calls(t["pre"]), calls(t["post"])))
     req = ",".join("%d/%s" % (i, enc_kw([(k, canon_val(v)) for k, v in kw.items()])) for i, kw in reqkw)
     dflt = case.get("default")
     return "exec %d %s %s %s" % (1 if case["dedupe"] else 0, "-" if dflt is None else str(dflt), ";".join(ts) or "-", req or "-")
@@ -271,7 +356,7 @@ def canon_impl(r):
                                  enc_kw(sorted((k, canon_val(v)) for k, v in kw.items()))))
     res = "-"
     if r["results"] is not None:
-        res = ",".join("%s=%d" % (k, v[1]) for k, v in sorted(r["results"].items(), key=lambda kv: str(kv[0])))
+        res = ",".join("%s=%d" % (k, v[1] - r.get("base", 0)) for k, v in sorted(r["results"].items(), key=lambda kv: str(kv[0])))
     return ",".join(log), res
 
 
@@ -336,7 +421,8 @@ def oracle(case, r):
         full = ref_expand(case, case["default"], [], [])
     else:
         full = []
-        for n, (idx, kw) in enumerate(req):
+        for n, it in enumerate(req):
+            idx, kw = it[0], it[1]
             lit_kw = reqkw[n][1] if reqkw is not None and n < len(reqkw) else None
             full += ref_expand(case, idx, [], kw, lit_kw)
     if case["dedupe"]:
@@ -345,11 +431,14 @@ def oracle(case, r):
         want = full
     got = [(tid, b) for tid, b, _p, _k in r["log"]]
     wantb = [(e[0], e[1]) for e in want]
+    cls = classes(case)
+    lit = lambda e: (e[2][0], sorted(e[2][1].items()))  # noqa: E731
+    # is this a case on which the two known divergences (literal kwargs, Task.__eq__) cannot show?  (used only to
+    # prefer the most telling failing input when there is a choice)
+    r["pure"] = (not case["dedupe"]) or [(e[0], e[1]) for e in first_occurrences(full, lambda e: (cls[e[0]], lit(e)))] == wantb
     if got != wantb:
         why = "executed %s, the property demands %s" % (got, wantb)
         if case["dedupe"]:
-            cls = classes(case)
-            lit = lambda e: (e[2][0], sorted(e[2][1].items()))  # noqa: E731
             alt = {
                 "[eff-args]": first_occurrences(full, lambda e: (e[0], lit(e))),
                 "[task-eq]": first_occurrences(full, lambda e: (cls[e[0]], sorted(e[1].items()))),
@@ -360,13 +449,15 @@ def oracle(case, r):
                     return tag + " " + why
         return why
     if r["results"] is not None:
+        # keys of the mapping are Task objects; objects wrapping one function under one name are one dict key
+        keyc = key_classes(case)
         ran = {}
         for seq, (tid, _b) in enumerate(got):
-            ran.setdefault(tid, []).append(seq)
+            ran.setdefault(keyc[tid], []).append(seq)
         if sorted(map(str, r["results"].keys())) != sorted(map(str, ran.keys())):
             return "returned mapping has keys %s, executed tasks are %s" % (sorted(map(str, r["results"])), sorted(ran))
         for tid, v in r["results"].items():
-            if not (isinstance(v, tuple) and v[0] == "ret" and v[1] in ran[tid]):
+            if not (isinstance(v, tuple) and v[0] == "ret" and (v[1] - r.get("base", 0)) in ran[tid]):
                 return "returned mapping gives task %s the value %r which is not a return value of that task (its executions: %s)" % (tid, v, ran[tid])
     return None
 
@@ -380,13 +471,20 @@ KNOWN_TAGS = {
 
 def match_known(entry, failure):
     tags = KNOWN_TAGS.get(entry.get("id"), ())
-    return any(failure["why"].startswith(t + " ") for t in tags)
+    why = failure["why"]
+    if why.startswith("session ") and ": " in why:
+        why = why.split(": ", 1)[1]
+    return any(why.startswith(t + " ") for t in tags)
 
 
 def replay(case):
-    r = run_impl(case)
-    why = oracle(case, r)
-    return why is None, why or "ok: executed %s" % [(t, b) for t, b, _p, _k in r["log"]]
+    rs = run_impl(case)
+    for k, r in enumerate(rs):
+        cs = session_case(case, k)
+        why = oracle(cs, r)
+        if why:
+            return False, ("session %d: " % (k + 1) if len(rs) > 1 else "") + why
+    return True, "ok: executed %s" % [[(t, b) for t, b, _p, _k in r["log"]] for r in rs]
 
 
 # ------------------------------------------------------------------ generators
@@ -416,38 +514,33 @@ def rand_call(rng, tasks, j, allow_plain=True):
     return [j, pos, kw]
 
 
-def random_case(rng):
-    n = rng.randint(2, 6)
-    tasks = []
-    twin = rng.random() < 0.12
-    for i in range(n):
-        t = {"name": "t%d" % i, "params": rng.choice(MENUS), "pre": [], "post": [], "code_of": None, "ns": None}
-        if i > 0:
-            for slot in ("pre", "post"):
-                for _ in range(rng.choice([0, 0, 1, 1, 2])):
-                    t[slot].append(rand_call(rng, tasks, rng.randrange(i)))
-        tasks.append(t)
-    if twin:
-        # two tasks made by one factory (same name, same code object) in sub-collections p and q
-        a = {"name": "tw", "params": [], "pre": [], "post": [], "code_of": None, "ns": "p"}
-        b = {"name": "tw", "params": [], "pre": [], "post": [], "code_of": len(tasks), "ns": "q"}
-        for t in (a, b):
-            if rng.random() < 0.5:
-                t["pre"].append(rand_call(rng, tasks, rng.randrange(n)))
-        tasks += [a, b]
-        # somebody may also depend on a twin
-        if rng.random() < 0.5:
-            k = {"name": "t%d" % len(tasks), "params": [], "pre": [[len(tasks) - rng.choice([1, 2]), [], []]], "post": [],
-                 "code_of": None, "ns": None}
-            tasks.append(k)
-    form = rng.choice(["names", "pairs", "pairs", "cli", "cli", "program"])
-    m = len(tasks)
+NS = [None, "p", "q_r", "s"]
+
+
+def rand_edges(rng, tasks, i):
+    out = {"pre": [], "post": []}
+    if i > 0:
+        for slot in ("pre", "post"):
+            for _ in range(rng.choice([0, 0, 1, 1, 2])):
+                out[slot].append(rand_call(rng, tasks, rng.randrange(i)))
+    return out
+
+
+def rand_options(rng, i):
+    al = []
+    if rng.random() < 0.25:
+        al = [rng.choice(["a%d", "al_%d"]) % i]
+    return {"aliases": al, "autoprint": rng.random() < 0.15}
+
+
+def rand_req(rng, tasks, form, prefer=()):
+    cli = form in ("cli", "program")
     req = []
     for _ in range(rng.randint(1, 3)):
         for _try in range(20):
-            j = rng.randrange(m)
-            if twin and rng.random() < 0.5:
-                j = rng.choice([i for i, t in enumerate(tasks) if t["name"] == "tw"])
+            j = rng.randrange(len(tasks))
+            if prefer and rng.random() < 0.6:
+                j = rng.choice(list(prefer))
             params = tasks[j]["params"]
             if form == "names" and any(p[1] is None for p in params):
                 continue
@@ -456,8 +549,50 @@ def random_case(rng):
                 for p in params:
                     if p[1] is None or rng.random() < 0.6:
                         kw.append([p[0], rand_value(rng, p)])
-            req.append([j, kw])
+            req.append([j, kw, rng.choice(spellings({"tasks": tasks}, j, cli))])
             break
+    return req
+
+
+def random_case(rng):
+    n = rng.randint(2, 5)
+    tasks = []
+    for i in range(n):
+        t = {"name": rng.choice(["t%d", "t%d", "t_%d"]) % i, "params": rng.choice(MENUS), "code_of": None, "body_of": None,
+             "ns": rng.choice([None, None, None, None, "p", "q_r"]), "sub_default": False}
+        t.update(rand_edges(rng, tasks, i))
+        t.update(rand_options(rng, i))
+        tasks.append(t)
+    # several Task objects over one function (body_of) / over the products of one factory (code_of): same name in another
+    # sub-collection or a different name, each with its OWN pre/post lists and options
+    derived = []
+    if rng.random() < 0.4:
+        for _ in range(rng.randint(1, 3)):
+            i = len(tasks)
+            j = rng.randrange(n)
+            same = rng.random() < 0.65
+            taken = [t["ns"] for t in tasks if t["name"] == tasks[j]["name"]]
+            free = [x for x in NS if x not in taken]
+            if same and not free:
+                same = False
+            t = {"name": tasks[j]["name"] if same else "d%d" % i, "params": tasks[j]["params"], "code_of": None, "body_of": None,
+                 "ns": rng.choice(free) if same else rng.choice(NS), "sub_default": False}
+            t[rng.choice(["body_of", "body_of", "code_of"])] = j
+            t.update(rand_edges(rng, tasks, i))
+            t.update(rand_options(rng, i))
+            tasks.append(t)
+            derived.append(i)
+        if rng.random() < 0.5:  # somebody depends on one of them
+            i = len(tasks)
+            t = {"name": "t%d" % i, "params": [], "code_of": None, "body_of": None, "ns": None, "sub_default": False,
+                 "pre": [rand_call(rng, tasks, rng.choice(derived))], "post": [], "aliases": [], "autoprint": False}
+            tasks.append(t)
+    for ns in set(t["ns"] for t in tasks if t["ns"]):
+        if rng.random() < 0.5:
+            rng.choice([t for t in tasks if t["ns"] == ns])["sub_default"] = True
+    form = rng.choice(["names", "pairs", "pairs", "cli", "cli", "program"])
+    prefer = derived + [t[j] for t in tasks for j in ("body_of", "code_of") if t.get(j) is not None]
+    req = rand_req(rng, tasks, form, prefer)
     default = None
     if form in ("names", "program") and rng.random() < 0.15:
         cands = [i for i, t in enumerate(tasks) if not t["ns"] and not any(p[1] is None for p in t["params"])]
@@ -465,15 +600,25 @@ def random_case(rng):
             default = rng.choice(cands)
             req = []
     if not req and default is None:
-        req = [[0, []]] if not any(p[1] is None for p in tasks[0]["params"]) else []
-        if not req:
-            tasks[0]["params"] = []
-            req = [[0, []]]
+        form = "pairs"
+        req = rand_req(rng, tasks, form, prefer)
     dedupe = rng.random() < 0.7
     via = "config"
     if form != "program" and dedupe and rng.random() < 0.3:
         via = rng.choice(["default", "default", "missing"])
-    return {"tasks": tasks, "default": default, "form": form, "req": req, "dedupe": dedupe, "dedupe_via": via}
+    case = {"tasks": tasks, "default": default, "form": form, "req": req, "dedupe": dedupe, "dedupe_via": via}
+    # the same Executor object runs a second session; pre/post lists may be edited in between
+    if form != "program" and rng.random() < 0.25:
+        edits = []
+        if rng.random() < 0.6:
+            for _ in range(rng.randint(1, 2)):
+                i = rng.randrange(1, len(tasks))
+                slot = rng.choice(["pre", "post"])
+                edits.append([i, slot, rand_edges(rng, tasks, i)[slot]])
+        req2 = rand_req(rng, tasks, form, prefer) if rng.random() < 0.6 else [list(x) for x in req]
+        if req2:
+            case["second"] = {"req": req2, "edits": edits}
+    return case
 
 
 def edge_lists(i, total):
@@ -517,27 +662,59 @@ def run(ctx):
                         continue
                     cases.append({"tasks": g, "default": None, "form": "names", "req": [[j, []] for j in rq],
                                   "dedupe": dd, "dedupe_via": "config"})
+    # 2b. one function wrapped by two Task objects (same name, two sub-collections) with their own pre/post lists
+    for pa, qa in itertools.product(edge_lists(2, 2 if big else 1), repeat=2):
+        g = [_t("t0"), _t("t1"),
+             _t("build", pre=[[j, [], []] for j in pa[0]], post=[[j, [], []] for j in pa[1]], ns="p"),
+             dict(_t("build", pre=[[j, [], []] for j in qa[0]], post=[[j, [], []] for j in qa[1]], ns="q"), body_of=2)]
+        for rq in ([2], [3], [2, 3], [3, 2], [2, 2], [3, 3]):
+            for dd in (True, False):
+                cases.append({"tasks": g, "default": None, "form": "names", "req": [[j, []] for j in rq],
+                              "dedupe": dd, "dedupe_via": "config"})
     out.exhaustive = True
     n_exh = len(cases)
-    # 3. random graphs with parameters, baked arguments, all request forms
-    for _ in range(ctx.n(4000, 60000)):
+    # 3. random graphs with parameters, baked arguments, all request forms, several names per task, shared bodies,
+    #    a second session on the same Executor object
+    for _ in range(ctx.n(3500, 50000)):
         cases.append(random_case(rng))
-    impl = [run_impl(c) for c in cases]
-    lines = [model_line(c, r["reqkw"] or []) for c, r in zip(cases, impl)]
+    fails = []
+    runs = []  # (case number, session number, case as it stands in that session, implementation result)
+    for n, c in enumerate(cases):
+        for k, r in enumerate(run_impl(c)):
+            runs.append((n, k, session_case(c, k), r))
+    lines = [model_line(cs, r["reqkw"] or []) for (_n, _k, cs, r) in runs]
     model = drv.run(lines) if ctx.model_ok else [None] * len(lines)
-    for n, (c, r, m) in enumerate(zip(cases, impl, model)):
-        nontrivial = len(r["log"]) >= 2
-        out.case(c, nontrivial)
-        out.hist["form:" + c["form"]] += 1
-        out.hist["dedupe:%s/%s" % ("on" if c["dedupe"] else "off", c.get("dedupe_via"))] += 1
-        if n >= n_exh:
-            out.hist["log_len:%d" % min(len(r["log"]), 12)] += 1
-            if any(t.get("code_of") is not None for t in c["tasks"]):
-                out.hist["with_twins"] += 1
-            if c.get("default") is not None:
-                out.hist["default_task"] += 1
-            if any(pos or kw for t in c["tasks"] for (_j, pos, kw) in t["pre"] + t["post"]):
-                out.hist["with_baked_args"] += 1
+    for (n, k, cs, r), m in zip(runs, model):
+        c = cases[n]
+        if k == 0:
+            out.case(c, len(r["log"]) >= 2)
+            out.hist["form:" + c["form"]] += 1
+            out.hist["dedupe:%s/%s" % ("on" if c["dedupe"] else "off", c.get("dedupe_via"))] += 1
+            if n >= n_exh:
+                out.hist["log_len:%d" % min(len(r["log"]), 12)] += 1
+                if any(t.get("code_of") is not None for t in c["tasks"]):
+                    out.hist["with_factory_twins"] += 1
+                if any(t.get("body_of") is not None for t in c["tasks"]):
+                    out.hist["with_shared_body"] += 1
+                cl = classes(c)
+                if any(cl[i] != i and (t["pre"], t["post"]) != (c["tasks"][cl[i]]["pre"], c["tasks"][cl[i]]["post"])
+                       for i, t in enumerate(c["tasks"])):
+                    out.hist["equal_tasks_with_different_pre_post"] += 1
+                if c.get("default") is not None:
+                    out.hist["default_task"] += 1
+                if any(pos or kw for t in c["tasks"] for (_j, pos, kw) in t["pre"] + t["post"]):
+                    out.hist["with_baked_args"] += 1
+                if any(len(it) > 2 and it[2] != (c["tasks"][it[0]]["name"]) for it in c["req"]):
+                    out.hist["requested_by_alias_dotted_dashed_or_shortcut"] += 1
+                seen = {}
+                for it in c["req"]:
+                    seen.setdefault(it[0], set()).add(it[2] if len(it) > 2 else None)
+                if any(len(v) > 1 for v in seen.values()):
+                    out.hist["one_task_under_two_names"] += 1
+        else:
+            out.hist["second_session"] += 1
+            if c["second"].get("edits"):
+                out.hist["second_session_after_edits"] += 1
         if r["error"]:
             out.hist["impl_error"] += 1
         if m is not None and not r["error"]:
@@ -550,18 +727,26 @@ def run(ctx):
                 mlog = ",".join(x.split("/")[0] for x in mlog.split(",") if x)
                 out.hist["literal_args_unobserved"] += 1
             if ilog != mlog or (ires != "-" and ires != mres):
-                out.disagree(c, {"log": ilog, "results": ires}, {"log": mlog, "results": mres})
-        why = oracle(c, r)
+                out.disagree(c, {"session": k + 1, "log": ilog, "results": ires}, {"log": mlog, "results": mres})
+        why = oracle(cs, r)
         if why:
             out.hist["oracle:" + (why.split(" ")[0] if why.startswith("[") else "other")] += 1
+            fails.append((why.startswith("["), bool(r.get("pure")), c, ("session %d: " % (k + 1) if k else "") + why))
+    # failures outside the known classes: when some of them are on inputs where the known divergences cannot show,
+    # report those (they hold on the unchanged code and fail here) rather than mixed ones
+    telling = any(pure and not tagged for tagged, pure, _c, _w in fails)
+    for tagged, pure, c, why in fails:
+        if tagged or pure or not telling:
             out.fail(c, why)
+        else:
+            out.hist["oracle_failure_not_listed(mixed_with_known_class)"] += 1
     out.extra["exhaustive_cases"] = n_exh
     return out
 
 
 def _t(name, params=(), pre=(), post=(), code_of=None, ns=None):
     return {"name": name, "params": [list(p) for p in params], "pre": [list(x) for x in pre], "post": [list(x) for x in post],
-            "code_of": code_of, "ns": ns}
+            "code_of": code_of, "body_of": None, "ns": ns}
 
 
 W22 = {"tasks": [_t("pre", [["x", ["i", 1]]]), _t("main", [], pre=[[0, [], []]])], "default": None, "form": "cli",
